@@ -12,8 +12,9 @@ const tickNanos = int64(1) << 30 // span of the timer wheel's finest level
 
 // Mismatch is one disagreement between the cache and the reference model.
 type Mismatch struct {
-	Class  string // ret | expired | event | overflow | bound | load | refresh | deadline | sweep | stats | calc | views
-	Detail string
+	Class     string // ret | expired | event | overflow | bound | load | refresh | deadline | sweep | stats | calc | views
+	Detail    string
+	OnExpired bool // the operation was applied to a key whose entry had expired but was not swept yet
 }
 
 func (m Mismatch) String() string { return m.Class + ": " + m.Detail }
